@@ -19,7 +19,7 @@ AUDIT_INPUT_FILES = True   # after every case the driver verifies that the synth
 PROPERTY = "C01"
 LEVEL = "exploration"
 CLAIM = {
-    "text": "Exploration by runtime monitoring: the real FilReader.read_plan is driven over a bounded-exhaustive lattice of (depth, nchans, file split, gulp, start, nsamps, skipback) on 12/17-sample streams plus seeded random plans on larger multi-file streams and custom allocators; every yielded block and the underlying seek/read trace are checked against the array the files were synthesised from. Held = no refuting block sequence among the plans listed in the evidence; nothing is claimed beyond those bounds. After every case the synthesised input files are re-hashed (no read may change them); the thorough tier also runs the repository's own test-suite with a read_plan tiling contract recording (vlib/suite_plugin.py). Rounds 7-8 added: 3001-sample narrow sub-byte streams read in gulps of 1027/1031/2999 samples, chains of overlapping full-block plans on one reader (incl. plans abandoned before the next one), and file names that held another geometry of equal byte size a moment earlier. Round 9 added: consumers that overwrite the yielded block, names that held a file with longer headers, plans started from a worker thread with the default description.",
+    "text": "Exploration by runtime monitoring: the real FilReader.read_plan is driven over a bounded-exhaustive lattice of (depth, nchans, file split, gulp, start, nsamps, skipback) on 12/17-sample streams plus seeded random plans on larger multi-file streams and custom allocators; every yielded block and the underlying seek/read trace are checked against the array the files were synthesised from. Held = no refuting block sequence among the plans listed in the evidence; nothing is claimed beyond those bounds. After every case the synthesised input files are re-hashed (no read may change them); the thorough tier also runs the repository's own test-suite with a read_plan tiling contract recording (vlib/suite_plugin.py). Rounds 7-8 added: 3001-sample narrow sub-byte streams read in gulps of 1027/1031/2999 samples, chains of overlapping full-block plans on one reader (incl. plans abandoned before the next one), and file names that held another geometry of equal byte size a moment earlier. Round 9 added: consumers that overwrite the yielded block, names that held a file with longer headers, plans started from a worker thread with the default description. Round 10 added: an abandoned plan finalised (closed or garbage-collected) between two blocks of the next plan on the same reader.",
     "design_ref": "DESIGN.md section 3 (C01), sections 1-2.5",
     "note": "Trusted: CPython, numpy, the independent SIGPROC encoder/bit packer in vlib/sigfile.py. Plans with gulp/2 < skipback < gulp may be rejected before the first yield or honoured. nsamps >= 1.",
     "technique": "runtime monitoring: reference-stream oracle over yielded blocks + overlap audit + seek/read trace spy",
